@@ -71,6 +71,42 @@ func (f *namedFn) Call(args ...ugo.Object) (ugo.Object, error) {
 
 var fnTable = map[string]*ugo.Function{}
 
+// pointer identities of error values, per case (reset by resetIdentities)
+var errTable = map[int64]*ugo.Error{}
+var rtErrTable = map[int64]*ugo.RuntimeError{}
+
+func resetIdentities() {
+	errTable = map[int64]*ugo.Error{}
+	rtErrTable = map[int64]*ugo.RuntimeError{}
+}
+
+func getErr(id int64, name, msg string) *ugo.Error {
+	if e, ok := errTable[id]; ok {
+		return e
+	}
+	e := &ugo.Error{Name: name, Message: msg}
+	errTable[id] = e
+	return e
+}
+
+func errID(e *ugo.Error) int64 {
+	for id, x := range errTable {
+		if x == e {
+			return id
+		}
+	}
+	return 0
+}
+
+func rtErrID(e *ugo.RuntimeError) int64 {
+	for id, x := range rtErrTable {
+		if x == e {
+			return id
+		}
+	}
+	return 0
+}
+
 func getFn(id string) *ugo.Function {
 	if f, ok := fnTable[id]; ok {
 		return f
@@ -127,9 +163,15 @@ func ValueOfSexp(s *Sexp) ugo.Object {
 		}
 		return &ugo.SyncMap{Value: m}
 	case "e":
-		return &ugo.Error{Name: string(atomBytes(s.List[1])), Message: string(atomBytes(s.List[2]))}
+		return getErr(atomInt(s.List[1]), string(atomBytes(s.List[2])), string(atomBytes(s.List[3])))
 	case "re":
-		return &ugo.RuntimeError{Err: &ugo.Error{Name: string(atomBytes(s.List[1])), Message: string(atomBytes(s.List[2]))}}
+		id := atomInt(s.List[1])
+		if r, ok := rtErrTable[id]; ok {
+			return r
+		}
+		r := &ugo.RuntimeError{Err: getErr(atomInt(s.List[2]), string(atomBytes(s.List[3])), string(atomBytes(s.List[4])))}
+		rtErrTable[id] = r
+		return r
 	case "fn":
 		return getFn(string(atomBytes(s.List[1])))
 	}
@@ -190,12 +232,12 @@ func SexpOfValue(o ugo.Object) *Sexp {
 		}
 		return out
 	case *ugo.Error:
-		return L(A("e"), hexAtom([]byte(v.Name)), hexAtom([]byte(v.Message)))
+		return L(A("e"), A(strconv.FormatInt(errID(v), 10)), hexAtom([]byte(v.Name)), hexAtom([]byte(v.Message)))
 	case *ugo.RuntimeError:
 		if v.Err == nil {
-			return L(A("re"), hexAtom(nil), hexAtom(nil))
+			return L(A("re"), A(strconv.FormatInt(rtErrID(v), 10)), A("0"), hexAtom(nil), hexAtom(nil))
 		}
-		return L(A("re"), hexAtom([]byte(v.Err.Name)), hexAtom([]byte(v.Err.Message)))
+		return L(A("re"), A(strconv.FormatInt(rtErrID(v), 10)), A(strconv.FormatInt(errID(v.Err), 10)), hexAtom([]byte(v.Err.Name)), hexAtom([]byte(v.Err.Message)))
 	case *ugo.Function:
 		return L(A("fn"), hexAtom([]byte(fnID(v))))
 	case *ugo.CompiledFunction:
